@@ -5,7 +5,8 @@
 // change-admin / set-metadata (plus plain bank transfers as environment). Beside it runs a
 // map-based reference model (denoms -> admin, minted, burned; balances; supply; bank metadata).
 // After every block the monitor
-//   - judges every SUCCESSFUL transaction against the model (was the signer the current admin?
+//   - judges every SUCCESSFUL transaction against the model (was the acting party - the signer, or
+//     the granter of a fee allowance it signs for - the current admin?
 //     was the denom created through the factory? is a new denom inside factory/<signer>/ and new?),
 //   - compares the COMPLETE observed state (all bank balances of all accounts, all supplies, all
 //     bank metadata entries, the whole tokenfactory store) with the model in exact big-int
@@ -17,9 +18,11 @@ import (
 	"math/big"
 	"sort"
 	"strings"
+	"time"
 
 	sdkmath "cosmossdk.io/math"
 	"cosmossdk.io/x/feegrant"
+	codectypes "github.com/cosmos/cosmos-sdk/codec/types"
 	sdk "github.com/cosmos/cosmos-sdk/types"
 	banktypes "github.com/cosmos/cosmos-sdk/x/bank/types"
 	"github.com/cosmos/gogoproto/proto"
@@ -32,8 +35,7 @@ import (
 )
 
 type params struct {
-	Len  int    `json:"len"`
-	Mode string `json:"mode,omitempty"` // "" = history, "grant-probe" = informational probe
+	Len int `json:"len"`
 }
 
 const (
@@ -41,7 +43,7 @@ const (
 	poorFunds = 25_000_000        // pays for two creations, the third must fail
 )
 
-func buildMsg(ms msgSpec) (msg sdk.Msg, err error) {
+func buildMsg(ms msgSpec, now time.Time) (msg sdk.Msg, err error) {
 	defer func() {
 		if e := recover(); e != nil {
 			err = fmt.Errorf("cannot build message: %v", e)
@@ -66,6 +68,22 @@ func buildMsg(ms msgSpec) (msg sdk.Msg, err error) {
 	case "send":
 		return &banktypes.MsgSend{FromAddress: ms.Creator, ToAddress: ms.To,
 			Amount: sdk.Coins{sdk.Coin{Denom: ms.Denom, Amount: sdkmath.NewIntFromBigInt(ms.amount())}}}, nil
+	case "grant":
+		al := &feegrant.BasicAllowance{}
+		switch ms.Variant {
+		case "spend-limit":
+			al.SpendLimit = sdk.NewCoins(sdk.NewInt64Coin(chain.Denom, 1))
+		case "expiring":
+			exp := now.Add(time.Duration(ms.ExpIn) * time.Second)
+			al.Expiration = &exp
+		}
+		a, err := codectypes.NewAnyWithValue(al)
+		if err != nil {
+			return nil, err
+		}
+		return &feegrant.MsgGrantAllowance{Granter: ms.Creator, Grantee: ms.To, Allowance: a}, nil
+	case "revoke":
+		return &feegrant.MsgRevokeAllowance{Granter: ms.Creator, Grantee: ms.To}, nil
 	}
 	return nil, fmt.Errorf("unknown kind %q", ms.K)
 }
@@ -129,10 +147,6 @@ type histStats struct {
 func run(c fw.Case, tier string, rec *fw.Recorder) {
 	var p params
 	c.Decode(&p)
-	if p.Mode == "grant-probe" {
-		runGrantProbe(c, rec)
-		return
-	}
 	r := c.Rand()
 
 	vals := chain.DefaultValidators("c16", []int64{10_000_000})
@@ -184,7 +198,7 @@ func run(c fw.Case, tier string, rec *fw.Recorder) {
 			var msgs []sdk.Msg
 			berr := ""
 			for _, ms := range tx.Msgs {
-				mm, err := buildMsg(ms)
+				mm, err := buildMsg(ms, ch.Time)
 				if err != nil {
 					berr = err.Error()
 					break
@@ -228,17 +242,21 @@ func run(c fw.Case, tier string, rec *fw.Recorder) {
 		// judge + apply
 		var findings []finding
 		okMask := make([]bool, len(b.Txs))
+		deleg := make([][]bool, len(b.Txs)) // per message: does it act for a granter (model state when its tx ran)?
 		var created []string
 		anyOK := false
 		var results []map[string]any
 		for li, qi := range live {
 			tx := qs[qi].tx
 			res := br.Txs[li]
-			signer := users[tx.Signer]
 			results = append(results, map[string]any{"signer": tx.Signer, "code": res.Code, "log": short(res.Log)})
 			rec.Count("txs", 1)
 			rec.Count("msgs", int64(len(tx.Msgs)))
 			pre := m // state before this tx (model is mutated in place below; classify first)
+			deleg[qi] = make([]bool, len(tx.Msgs))
+			for j, ms := range tx.Msgs {
+				_, deleg[qi][j] = pre.acting(users, tx.Signer, ms)
+			}
 			classifyTx(rec, g, pre, users, tx, res.OK(), &stats)
 			if !res.OK() {
 				// a rejected transaction must leave no trace: nothing is applied to the model
@@ -246,9 +264,13 @@ func run(c fw.Case, tier string, rec *fw.Recorder) {
 			}
 			anyOK = true
 			okMask[qi] = true
-			fs, cr := m.applyTx(signer, tx.Signer, tx, newDenomsOf(res))
+			fs, cr, dk := m.applyTx(users, tx.Signer, tx, newDenomsOf(res))
 			findings = append(findings, fs...)
 			created = append(created, cr...)
+			for _, k := range dk {
+				rec.Count("delegated_"+k+"_ok", 1)
+				stats.ok["delegated"]++
+			}
 			rec.Eval(int64(len(tx.Msgs)))
 		}
 		rec.Op(map[string]any{"step": b.Step, "results": results})
@@ -261,13 +283,13 @@ func run(c fw.Case, tier string, rec *fw.Recorder) {
 			createdBy[d] = true
 		}
 		kindsFor := func(denom string, prefer ...string) string {
-			set := map[string]struct{}{}
+			set := map[string]string{} // label -> kind; a message that acted for a granter is labelled delegated-<kind>
 			collect := func(onlyOK, match bool) {
 				for i, tx := range b.Txs {
 					if onlyOK && !okMask[i] {
 						continue
 					}
-					for _, ms := range tx.Msgs {
+					for j, ms := range tx.Msgs {
 						d := ms.Denom
 						if ms.K == "setmeta" && ms.Meta != nil {
 							d = ms.Meta.Base
@@ -276,7 +298,11 @@ func run(c fw.Case, tier string, rec *fw.Recorder) {
 							d = denom
 						}
 						if !match || d == denom {
-							set[ms.K] = struct{}{}
+							label := ms.K
+							if deleg[i] != nil && deleg[i][j] {
+								label = "delegated-" + ms.K
+							}
+							set[label] = ms.K
 						}
 					}
 				}
@@ -295,11 +321,11 @@ func run(c fw.Case, tier string, rec *fw.Recorder) {
 				}
 			}
 			var ks, pk []string
-			for k := range set {
-				ks = append(ks, k)
+			for label, k := range set {
+				ks = append(ks, label)
 				for _, p := range prefer {
 					if p == k {
-						pk = append(pk, k)
+						pk = append(pk, label)
 					}
 				}
 			}
@@ -314,6 +340,13 @@ func run(c fw.Case, tier string, rec *fw.Recorder) {
 			rec.Count("create_fee_ugrain_moved", moved.Int64())
 		}
 		findings = append(findings, m.compare(o, kindsFor)...)
+		if n := m.adoptGrants(o); n > 0 {
+			// environment, not part of the verdict: an allowance expired (fee-grant end-blocker)
+			rec.Count("allowances_changed_outside_messages", int64(n))
+		}
+		if m.grantCount() > 0 {
+			rec.Count("blocks_with_allowances", 1)
+		}
 		nobs := int64(len(o.supply) + len(o.meta) + len(o.admin))
 		for _, mm := range o.bal {
 			nobs += int64(len(mm))
@@ -411,6 +444,8 @@ func describe(b blockSpec, results []map[string]any) string {
 				sb.WriteString(fmt.Sprintf("chadmin %s -> %s", tail(ms.Denom), ms.Variant))
 			case "setmeta":
 				sb.WriteString(fmt.Sprintf("setmeta %s (%s)", tail(ms.Denom), ms.Variant))
+			case "grant", "revoke":
+				sb.WriteString(fmt.Sprintf("%s allowance -> %s (%s)", ms.K, trunc(ms.To[len(ms.To)-4:], 4), ms.Variant))
 			}
 			if ms.CreatorClass != "" && ms.CreatorClass != "self" {
 				sb.WriteString(" as:" + ms.CreatorClass)
@@ -468,13 +503,34 @@ func classifyTx(rec *fw.Recorder, g *gen, m *model, users []*chain.Account, tx t
 		return
 	}
 	ms := tx.Msgs[0]
-	signer := users[tx.Signer]
+	actIdx, delegated := m.acting(users, tx.Signer, ms)
+	signer := users[actIdx] // the account the message acts for: the key holder, or the granter it signs for
 	rec.Count(ms.K+"_"+out, 1)
 	if ok {
 		st.ok[ms.K]++
 	}
 	key := []string{ms.K, ms.DenomClass, ms.CreatorClass, ms.AmtClass, ms.Variant, out}
+	if delegated {
+		key = append(key, "delegated")
+		if !ok {
+			rec.Count("delegated_"+ms.K+"_rejected", 1)
+		}
+	} else if ci := g.userIdxOf(ms.Creator); ci >= 0 && ci != tx.Signer && ms.K != "send" && ms.K != "grant" && ms.K != "revoke" {
+		// creator = another user, signer holds no allowance from it: the ante chain must refuse
+		what := "no_allowance"
+		if m.hasGrant(users[tx.Signer].Bech, users[ci].Bech) {
+			what = "reverse_allowance_only"
+		}
+		if ok {
+			rec.Count("foreign_creator_accepted_"+what, 1) // the oracle judges it as the signer's own action
+		} else {
+			rec.Count("foreign_creator_rejected_"+what, 1)
+		}
+		key = append(key, what)
+	}
 	switch ms.K {
+	case "grant", "revoke":
+		key = append(key, fmt.Sprint(m.hasGrant(ms.Creator, ms.To)))
 	case "create":
 		d := "factory/" + signer.Bech + "/" + ms.Sub
 		_, exists := m.tokens[d]
@@ -483,8 +539,11 @@ func classifyTx(rec *fw.Recorder, g *gen, m *model, users []*chain.Account, tx t
 			if !ok && ms.CreatorClass == "self" {
 				rec.Count("create_rejected_existing", 1)
 			}
+			if !ok && delegated {
+				rec.Count("delegated_create_rejected_existing", 1)
+			}
 		}
-		if !ok && ms.CreatorClass != "self" {
+		if !ok && ms.CreatorClass != "self" && !delegated {
 			rec.Count("create_rejected_foreign_creator_field", 1)
 		}
 	case "mint", "burn", "chadmin", "setmeta":
@@ -500,7 +559,7 @@ func classifyTx(rec *fw.Recorder, g *gen, m *model, users []*chain.Account, tx t
 		switch {
 		case sameAccount(t.Admin, signer.Addr):
 			role = "admin"
-		case t.CreatorIdx == tx.Signer:
+		case t.CreatorIdx == actIdx:
 			role = "creator-not-admin"
 		case m.balance(ms.Denom, signer.Bech).Sign() > 0:
 			role = "holder"
@@ -526,14 +585,27 @@ func classifyTx(rec *fw.Recorder, g *gen, m *model, users []*chain.Account, tx t
 				st.rej["nonadmin"]++
 			}
 		}
-		if ms.CreatorClass != "self" && ms.CreatorClass != "" && !ok {
+		if ms.CreatorClass != "self" && ms.CreatorClass != "" && !ok && !delegated {
 			rec.Count("rejected_foreign_creator_field", 1)
 		}
 		if role == "admin" && ms.CreatorClass == "self" && !ok {
 			rec.Count(ms.K+"_by_admin_rejected", 1) // liveness only (amount 0, overflow, own balance too small, invalid metadata, ...)
 		}
-		if role == "admin" && ok {
+		if role == "admin" && ok && !delegated {
 			rec.Count(ms.K+"_by_admin_ok", 1)
+		}
+		if delegated {
+			// the granter the grantee signs for is / is not the current admin
+			if role == "admin" && ok {
+				rec.Count("delegated_"+ms.K+"_for_admin_ok", 1)
+			}
+			if role != "admin" {
+				if ok {
+					rec.Count("delegated_"+ms.K+"_for_nonadmin_accepted", 1) // the oracle reports this as a violation
+				} else {
+					rec.Count("delegated_rejected_for_nonadmin", 1)
+				}
+			}
 		}
 	}
 	rec.Distinct(strings.Join(key, "|"))
@@ -548,7 +620,6 @@ func cases(tier string, seed int64) []fw.Case {
 	for i := 0; i < n; i++ {
 		cs = append(cs, fw.MkCase(fmt.Sprintf("hist-%03d", i), seed*1000003+int64(i)*7919+16, params{Len: l}))
 	}
-	cs = append(cs, fw.MkCase("grant-probe", 0, params{Mode: "grant-probe"}))
 	return cs
 }
 
@@ -557,17 +628,20 @@ func init() {
 		ID:    "C16",
 		Level: "exploration",
 		Rule: "one case = one history on a fresh real chain (1 validator, 4 funded users + 1 user that can pay only two creation fees); " +
-			"quick 96 histories x 250 blocks, thorough 1000 x 500. A block holds one signed tx with one message (mostly), one tx with 2-3 messages (atomicity) or 2-3 txs of distinct signers. " +
+			"quick 192 histories x 250 blocks, thorough 1000 x 500. A block holds one signed tx with one message (mostly), one tx with 2-3 messages (atomicity) or 2-3 txs of distinct signers. " +
 			"Messages: create / mint / burn / change-admin / set-metadata (+ bank sends as environment) by admin, creator-not-admin, holders and outsiders, " +
 			"on existing factory tokens, the native denom, IBC-looking, never-created, upper-case-creator and malformed denoms, sub-denoms with slashes / boundary lengths / invalid characters, " +
 			"amounts from {small, 1, 0, negative, 2^63-1, 2^63, 2^64+1, 2^128, 2^255, 2^256-1, fill-to-max, one-over-max}, Metadata.Creator/Signers forged in 7 ways, new admins {user, self, \"\", creator, upper-case, module account, unknown account, valoper, wrong hrp, garbage}; " +
 			"scripted take-over / hand-over / renounce / holder-burn / create+mint+hand-over-in-one-tx sub-scenarios are injected at random positions. " +
+			"Delegated signing: users grant / revoke fee allowances (basic, spend-limited, expiring) as environment; ~45 % of the honest messages of a user that has a grantee are signed by the grantee instead (Metadata.Creator = granter, Signers = [grantee]), " +
+			"and a scripted delegation scenario sends create / mint / burn / set-metadata / change-admin through that route with the controls the ante chain must refuse (before the grant, allowance in the wrong direction only, third party, after revocation). " +
 			"distinct_nontrivial = distinct abstract transitions (message kind, denom class, creator-field class, amount class, variant, outcome, signer role, admin kind, supply class); " +
 			"evaluations = messages of successful txs judged against the model + state items (balances, supplies, metadata entries, authority entries) compared after every block",
 		Assumptions: []string{
-			"histories consist of the five token-factory messages plus plain bank sends; no fee grants exist (the ante decorator lets a fee-grantee act as the granter - see NOTES.md), no skyway/bridge or wasm-binding operations",
+			"histories consist of the five token-factory messages plus plain bank sends and fee-allowance grants / revocations (environment); no skyway/bridge or wasm-binding operations",
 			"'the admin' is an account: an admin string designates the account whose address bytes it decodes to (either bech32 case); \"\" designates nobody",
-			"the acting party of a transaction is the account whose key signed it",
+			"the acting party of a message is the account whose key signed the transaction - unless Metadata.Creator designates another account that has granted the signer a fee allowance (Paloma's delegated signing, admitted by VerifyAuthorisedSignatureDecorator): then it is that creator, and 'the admin' / 'the admin's own balance' / 'its own namespace' are decided for the creator. A foreign creator field without such an allowance gives the signer no rights",
+			"the set of fee allowances is environment: successful grant / revoke messages are applied by the model, expiry is adopted from the observed fee-grant store after every block",
 			"creation fee amount and the default bank metadata written by create are not part of the property: adopted from the observation (supply of the fee denom must still be unchanged)",
 			"a rejected admin action (liveness) is not a violation",
 		},
@@ -577,57 +651,11 @@ func init() {
 			"create_ok", "create_rejected_existing", "mint_by_admin_ok", "burn_by_admin_ok", "chadmin_by_admin_ok", "setmeta_by_admin_ok",
 			"mint_rejected_nonadmin", "burn_rejected_nonadmin", "chadmin_rejected_nonadmin", "setmeta_rejected_nonadmin",
 			"mint_rejected_nonfactory", "burn_rejected_nonfactory", "chadmin_rejected_nonfactory", "setmeta_rejected_nonfactory",
-			"rejected_foreign_creator_field", "multimsg_tx_ok", "multimsg_tx_rejected", "state_comparisons", "histories_nontrivial",
+			"rejected_foreign_creator_field",
+			"grant_ok", "revoke_ok", "delegated_create_ok", "delegated_mint_ok", "delegated_burn_ok", "delegated_chadmin_ok", "delegated_setmeta_ok",
+			"delegated_rejected_for_nonadmin", "foreign_creator_rejected_no_allowance", "foreign_creator_rejected_reverse_allowance_only",
+			"multimsg_tx_ok", "multimsg_tx_rejected", "state_comparisons", "histories_nontrivial",
 		},
 		TimeoutS: 600,
 	})
-}
-
-// runGrantProbe is NOT part of the verdict. The property's quantifier ranges over the five
-// token-factory messages; fee grants are outside it (see Assumptions). Paloma's ante decorator
-// lets an account that holds a fee grant from X sign messages whose Metadata.Creator is X. This
-// probe records (counters + sample only) what that means for a factory token, so that the limit
-// of the "held" verdict is visible in the evidence file.
-func runGrantProbe(c fw.Case, rec *fw.Recorder) {
-	vals := chain.DefaultValidators("c16", []int64{10_000_000})
-	a := chain.NewAccount("granter", "c16/probe/a")
-	b := chain.NewAccount("grantee", "c16/probe/b")
-	coins := sdk.NewCoins(sdk.NewInt64Coin(chain.Denom, richFunds))
-	ch := chain.New(chain.Config{Validators: vals, Users: map[*chain.Account]sdk.Coins{a: coins, b: coins}})
-	defer ch.Close()
-	ch.NextBlock()
-	selfA := valsettypes.MsgMetadata{Creator: a.Bech, Signers: []string{a.Bech}}
-	denom := "factory/" + a.Bech + "/probe"
-	steps := []string{}
-	note := func(what string, r chain.TxResult) bool {
-		steps = append(steps, fmt.Sprintf("%s -> code %d %s", what, r.Code, short(r.Log)))
-		return r.OK()
-	}
-	if !note("granter creates probe", ch.Deliver(a, &tftypes.MsgCreateDenom{Subdenom: "probe", Metadata: selfA})) {
-		rec.Count("grant_probe_setup_failed", 1)
-		return
-	}
-	note("granter mints 100", ch.Deliver(a, &tftypes.MsgMint{Amount: sdk.NewInt64Coin(denom, 100), Metadata: selfA}))
-	asA := valsettypes.MsgMetadata{Creator: a.Bech, Signers: []string{b.Bech}}
-	before := note("grantee-to-be signs change-admin as granter BEFORE any grant", ch.Deliver(b, &tftypes.MsgChangeAdmin{Denom: denom, NewAdmin: b.Bech, Metadata: asA}))
-	grant, err := feegrant.NewMsgGrantAllowance(&feegrant.BasicAllowance{}, a.Addr, b.Addr)
-	if err != nil || !note("granter grants a basic fee allowance to grantee", ch.Deliver(a, grant)) {
-		rec.Count("grant_probe_setup_failed", 1)
-		return
-	}
-	burn := note("grantee signs burn of 40 from the granter's balance as granter", ch.Deliver(b, &tftypes.MsgBurn{Amount: sdk.NewInt64Coin(denom, 40), Metadata: asA}))
-	after := note("grantee signs change-admin (new admin = grantee) as granter", ch.Deliver(b, &tftypes.MsgChangeAdmin{Denom: denom, NewAdmin: b.Bech, Metadata: asA}))
-	am, _ := ch.App.TokenFactoryKeeper.GetAuthorityMetadata(ch.Ctx(), denom)
-	rec.Count("grant_probe_runs", 1)
-	if before {
-		rec.Count("grant_probe_accepted_without_grant", 1)
-	}
-	if burn {
-		rec.Count("grant_probe_grantee_burned_granters_balance", 1)
-	}
-	if after && am.Admin == b.Bech {
-		rec.Count("grant_probe_grantee_took_admin_role", 1)
-	}
-	rec.Sample(map[string]any{"case": c.Name, "not_part_of_verdict": true, "steps": steps, "admin_afterwards": am.Admin,
-		"granter": a.Bech, "grantee": b.Bech, "granter_balance_afterwards": ch.Balance(a.Addr, denom).String()})
 }
